@@ -1,37 +1,85 @@
-(* C17 — blocked operations sleep: no busy-waiting. PARTIAL.
-   Proved here, for every history of each of the five machines: no poll ever exhausts the fuel of its loop
-   and none takes a branch the code treats as unreachable (serr stays false). The fuel constants are the
-   loop bounds of the model (Mutex 12, Semaphore 8, RwLock 10 (+8 for the CAS loops), OnceCell 8, Barrier 8
-   iterations): a single poll of any future, in any reachable state, with any waker, performs at most that
-   many iterations of its acquire loop and then returns — it cannot spin, whatever the other futures do.
-   NOT proved: the bound on the NUMBER OF POLLS needed to settle ("re-polling every woken future reaches
-   quiescence after at most c * pending polls"). That statement needs the converse of the ownership
-   invariant (a pending future flagged woken owns a notified entry; rests on wakers being unique per
-   future) and a potential function (notified entries + pending futures + unstarved mutex waiters); it is
-   decided by the harness monitor on the implementation (<= 3*pending+3 polls at every settle point, and
-   the watchdog for outright hangs) and by the correspondence of every wake-up list with the model. *)
+(* C17 — blocked operations sleep: no busy-waiting (history half).
+   For each of the five primitives and every reachable state of its machine (after ANY history ops0), consider
+   ANY sequence of settle polls: each one re-polls, with any waker, a future that is pending and whose most
+   recent waker has been called since its last poll (flagged woken) — in any order, for as long as there is one.
+   (1) C17_*_settle: such a sequence has at most
+         Semaphore   3 * pending + 2 * listeners          Mutex    5 * pending + 2 * listeners
+         Barrier     4 * pending + 2 * listeners          RwLock   5 * pending + 2 * listeners (three events)
+         OnceCell    4 * pending + 5 * listeners
+       polls, where `listeners` <= pending is the number of registered entries. So while nothing is released,
+       acquired, started or cancelled, re-polling every woken future reaches a state with no outstanding
+       wake-up after a number of polls bounded by a small multiple of the number of pending futures: pending
+       acquisitions do not keep waking themselves or each other.
+       Proof: a potential  (#pending flagged woken) + 2 * (#notified entries) + 3 * (#pending)
+       [+ #pending lock operations not yet starved, for the (inner) mutex; + 3 * #entries until the OnceCell is
+       initialised] strictly decreases at every settle poll; the wake-up pass of an operation flags at most one
+       pending future per waker it called because wakers identify their future (Settle.cW_wake).
+   (2) C17_*_polls_terminate: no poll exhausts the fuel of its loop or takes an unreachable branch: a single
+       poll performs a bounded number of iterations and returns.
+   The code proved is the repaired one: on the pre-fix tree (F3: woken readers passing the notification on
+   before looking at the state) the RwLock read path wakes another reader while staying pending with the
+   writer bit set, and the potential does not decrease. *)
 From AL Require Import Base Api Mutex MutexApi Semaphore SemApi RwLock RwApi OnceApi BarrierApi
-                       MutexLive SemLive RwLive OnceInv BarrierInv.
+                       MutexLive SemLive RwLive OnceInv BarrierInv Settle SemSettle BarrierSettle OnceSettle MutexSettle RwSettle.
 From AL.Tie Require Tie_Mutex Tie_Semaphore Tie_Raw Tie_RwLock Tie_RwFutures Tie_OnceCell Tie_Barrier.
 
-Theorem C17_mutex_polls_terminate_partial : forall ops : list mop, N.of_nat (length ops) < MutexLive.LIVE_BOUND -> serr (m_sh (mrun ops)) = false.
+Theorem C17_semaphore_settle : forall (n : N) (ops0 ops : list sop), SemSettle.settle_run (srun n ops0) ops ->
+  N.of_nat (length ops) <= 3 * sP (srun n ops0) + 2 * N.of_nat (length (se0 (s_sh (srun n ops0)))).
+Proof. exact sem_settle_bound. Qed.
+
+Theorem C17_mutex_settle : forall ops0 ops : list mop, N.of_nat (length ops0) + N.of_nat (length ops) < MutexLive.LIVE_BOUND ->
+  msettle_run (mrun ops0) ops ->
+  N.of_nat (length ops) <= 5 * mP (mrun ops0) + 2 * N.of_nat (length (se0 (m_sh (mrun ops0)))).
+Proof. exact mutex_settle_bound. Qed.
+
+Theorem C17_rwlock_settle : forall ops0 ops : list rop, N.of_nat (length ops0) + N.of_nat (length ops) < RLIVE_BOUND ->
+  rsettle_run (rrun ops0) ops ->
+  N.of_nat (length ops) <= 5 * rP (rrun ops0) +
+    2 * (N.of_nat (length (se0 (r_sh (rrun ops0)))) + N.of_nat (length (se1 (r_sh (rrun ops0)))) + N.of_nat (length (se2 (r_sh (rrun ops0))))).
+Proof. exact rw_settle_bound. Qed.
+
+Theorem C17_oncecell_settle : forall ops0 ops : list oop, N.of_nat (length ops0) + N.of_nat (length ops) + 1 < ONCE_BOUND ->
+  osettle_run (orun ops0) ops ->
+  N.of_nat (length ops) <= 4 * oP (orun ops0) + 5 * sL (o_sh (orun ops0)).
+Proof. exact once_settle_bound. Qed.
+
+Theorem C17_barrier_settle : forall (n : N) (ops0 ops : list bop), n < USZ -> N.of_nat (length ops0) + N.of_nat (length ops) + 1 < BAR_BOUND ->
+  bsettle_run (brun n ops0) ops ->
+  N.of_nat (length ops) <= 4 * bP (brun n ops0) + 2 * N.of_nat (length (se1 (b_sh (brun n ops0)))).
+Proof. exact bar_settle_bound. Qed.
+
+Theorem C17_mutex_polls_terminate : forall ops : list mop, N.of_nat (length ops) < MutexLive.LIVE_BOUND -> serr (m_sh (mrun ops)) = false.
 Proof. exact mutex_no_error. Qed.
-Theorem C17_semaphore_polls_terminate_partial : forall (n : N) (ops : list sop), serr (s_sh (srun n ops)) = false.
+Theorem C17_semaphore_polls_terminate : forall (n : N) (ops : list sop), serr (s_sh (srun n ops)) = false.
 Proof. exact sem_no_error. Qed.
-Theorem C17_rwlock_polls_terminate_partial : forall ops : list rop, N.of_nat (length ops) < RLIVE_BOUND -> serr (r_sh (rrun ops)) = false.
+Theorem C17_rwlock_polls_terminate : forall ops : list rop, N.of_nat (length ops) < RLIVE_BOUND -> serr (r_sh (rrun ops)) = false.
 Proof. exact rw_no_error. Qed.
-Theorem C17_oncecell_polls_terminate_partial : forall ops : list oop, N.of_nat (length ops) < ONCE_BOUND -> serr (o_sh (orun ops)) = false.
+Theorem C17_oncecell_polls_terminate : forall ops : list oop, N.of_nat (length ops) < ONCE_BOUND -> serr (o_sh (orun ops)) = false.
 Proof. exact once_no_error. Qed.
-Theorem C17_barrier_polls_terminate_partial : forall (n : N) (ops : list bop), n < USZ -> N.of_nat (length ops) < BAR_BOUND -> serr (b_sh (brun n ops)) = false.
+Theorem C17_barrier_polls_terminate : forall (n : N) (ops : list bop), n < USZ -> N.of_nat (length ops) < BAR_BOUND -> serr (b_sh (brun n ops)) = false.
 Proof. exact barrier_no_error. Qed.
 
-(* the error flag is what fuel exhaustion sets: a 13-iteration loop would show up here *)
+(* non-vacuity: two waiters behind a holder, one of them starved by the oracle; the guard is dropped (first waiter
+   woken); a settle run of two polls: the woken unstarved waiter finds the starved one ahead in the protocol,
+   passes the notification on and becomes starved; the starved waiter is woken and acquires; then nobody is woken *)
+Example C17_nonvacuous :
+  let x := mrun [MTry false; MLock false; MLock false; MSetOracle [true; true]; MPoll 0 0; MPoll 1 0; MDropGuard 0; MTry false; MPoll 0 1; MDropGuard 1] in
+  mW x = 1 /\ msettle_run x [MPoll 1 1; MPoll 0 2] /\
+  mW (fst (mstep (fst (mstep x (MPoll 1 1))) (MPoll 0 2))) = 0.
+Proof.
+  vm_compute. split; [reflexivity|]. split; [|reflexivity].
+  split; [exists 1%nat, 1%nat; eexists; repeat split; try reflexivity; Lia.lia|].
+  split; [exists 0%nat, 2%nat; eexists; repeat split; try reflexivity; Lia.lia | exact I].
+Qed.
+
+(* the error flag is what fuel exhaustion sets *)
 Example C17_fuel_is_observable :
   serr (snd (fst (acq_poll W0 E0 0%nat (mkAcq false None false) sh0))) = true.
 Proof. reflexivity. Qed.
 
-Print Assumptions C17_mutex_polls_terminate_partial.
-Print Assumptions C17_semaphore_polls_terminate_partial.
-Print Assumptions C17_rwlock_polls_terminate_partial.
-Print Assumptions C17_oncecell_polls_terminate_partial.
-Print Assumptions C17_barrier_polls_terminate_partial.
+Print Assumptions C17_semaphore_settle.
+Print Assumptions C17_mutex_settle.
+Print Assumptions C17_rwlock_settle.
+Print Assumptions C17_oncecell_settle.
+Print Assumptions C17_barrier_settle.
+Print Assumptions C17_mutex_polls_terminate.
